@@ -287,11 +287,35 @@ def fnStmts (tbl : List Access) (f : Fn) : List (Stmt SField) :=
       | none => none
     else none
 
-/-- no function calls another Service method while holding the mutex (sync.Mutex is not re-entrant, and
-    the lock state of the callee's accesses is the callee's own) -/
-def noCallUnderLock (tbl : List Access) : Bool :=
-  tbl.all fun a => match a.ev with
-    | .call _ => a.lock = .free
+/-- Go name starts with a lower-case letter: callable from inside the package only -/
+def unexported (f : Fn) : Bool :=
+  match f.goName.toList with
+  | c :: _ => c.isLower
+  | [] => false
+
+/-- **accesses under the caller's mutex**: `f` never touches the mutex itself (`mu` = the functions that do), is
+    unexported and never started with `go`, has at least one call site in the table, and every call site is under
+    the mutex — in the caller's own walk, or because the caller is such a function in turn (fuel = number of
+    functions). Then everything `f` does happens inside a critical section of its caller. -/
+def underCallersLock (tbl : List Access) (mu : List Fn) : Nat → Fn → Bool
+  | 0, _ => false
+  | n + 1, f =>
+    let sites := tbl.filter fun a => a.ev = .call f
+    !mu.contains f && unexported f && !sites.isEmpty && !(tbl.any fun a => a.ev = .spawn f) &&
+    sites.all fun a => a.lock = .held || (a.lock = .free && underCallersLock tbl mu n a.fn)
+
+/-- the table with the lock state each access has at run time: what the per-function walk found, except that
+    the accesses of a function which only ever runs under its callers' mutex are held -/
+def effective (tbl : List Access) (mu : List Fn) : List Access :=
+  tbl.map fun a =>
+    if a.lock = .free && underCallersLock tbl mu Fn.all.length a.fn then { a with lock := .held } else a
+
+/-- the mutex is never held across a `go`, and a Service method is called with the mutex held only if it is a
+    function that runs under its callers' mutex (`underCallersLock`: it never locks — sync.Mutex is not
+    re-entrant — and all its call sites hold the mutex, so the lock state recorded for its accesses is right) -/
+def callsUnderLockOK (tbl : List Access) (mu : List Fn) : Bool :=
+  (effective tbl mu).all fun a => match a.ev with
+    | .call g => a.lock = .free || underCallersLock tbl mu Fn.all.length g
     | .spawn _ => a.lock = .free
     | _ => true
 
